@@ -387,6 +387,9 @@ static int32_t fsr_statistics(struct jls_core_s * self, uint16_t signal_id,
                                   incr, f64_tmp4, 1));
         ROE(jls_raw_chunk_seek(self->raw, pos));
         ROE(rd_stats_chunk(self, signal_id, level));
+        // the nested request may have grown, and so moved, the chunk buffer
+        f32_summary = (struct jls_fsr_f32_summary_s *) self->buf->start;
+        f64_summary = (struct jls_fsr_f64_summary_s *) self->buf->start;
         f64_to_stats(&stats_accum, f64_tmp4, incr);
         incr_remaining -= incr;
         start_sample_id += incr;
@@ -438,7 +441,9 @@ static int32_t fsr_statistics(struct jls_core_s * self, uint16_t signal_id,
             data += JLS_SUMMARY_FSR_COUNT;
             --data_length;
             int64_t incr = step_size - incr_remaining;
-            if (incr < 0) {
+            if (data_length == 0) {
+                // done: after the nested request the chunk buffer no longer holds this summary
+            } else if (incr < 0) {
                 JLS_LOGE("internal error");
                 incr = 0;
                 jls_statistics_reset(&stats_accum);
